@@ -169,6 +169,20 @@ theorem C18_report (s : Sig) (hwf : s.wf = true) (c : Call) (o i : Bool) (F : Fu
   rw [List.map_congr_left (fun p hp => e1 p (List.mem_append_left _ hp)),
       List.map_congr_left (fun p hp => e1 p (List.mem_append_right _ hp))]
 
+/-- Clone and JSON round trip report the same arguments: `clone` carries the whole modelled state
+over, and `from_json(to_json(F))` — which re-constructs by field name with the defaults made
+explicit — has the same `sym_init_args`, hence (with `C18_report`) denotes the same supplied
+arguments. (That the round-tripped functor also *calls* like the original is tied by
+correspondence: `json_call0`, `clone_call` in the differential run.) -/
+theorem C18_report_roundtrip (s : Sig) (hwf : s.wf = true) (c : Call) (o i : Bool) (F : Functor) (n : Named)
+    (hc : c.wf = true) (ha : AvoidsVarargsName s c)
+    (hF : functorInit s c o i = .ok F) (hn : nameArgs s c = .ok n) :
+    symInitArgs F.clone = reportNamed s n ∧ symInitArgs F.jsonRoundTrip = reportNamed s n := by
+  obtain ⟨hB, _, _⟩ := built_of_init s hwf c o i F n hc ha hF hn
+  refine ⟨C18_report s hwf c o i F n hc ha hF hn, ?_⟩
+  rw [symInitArgs_json s hwf F hB.sig hB.vaSome]
+  exact C18_report s hwf c o i F n hc ha hF hn
+
 /-! ### Direct construction of a symbolized class -/
 
 /-- `Cls(*a, **k)` for `Cls = pg.symbolize(UserClass)` binds as the user's `__init__` does: what
